@@ -225,7 +225,7 @@ class C09(Check):
     ANCHORS = ['rxsci/operators/scan.py', 'rxsci/operators/count.py', 'rxsci/data/to_list.py', 'rxsci/data/to_array.py', 'rxsci/math/dist/__init__.py']
     REQUIRED_TAGS = ['plain', 'mux', 'group', 'roll', 'roll_eq', 'split', 'time_split', 'generic', 'named', 'reduce', 'streaming', 'terminator',
                      'factory', 'value-seed', 'mutable', 'empty-lifetime', 'scale', 'numpy-items', 'numpy-vector-items', 'factory-that-is-not-a-function', 'exact-number-items'] + ['history-fed-more-than-the-judged-stream'] + PRELUDE_TAGS + ['op=' + n[0] for n in NAMED]
-    REQUIRED_OBSERVED = ['accumulator_calls', 'terminator_calls', 'factory_calls', 'lifetimes_checked', 'identity_checks']
+    REQUIRED_OBSERVED = ['triples_of_staggered_subscriptions', 'accumulator_calls', 'terminator_calls', 'factory_calls', 'lifetimes_checked', 'identity_checks']
 
     def generate(self, rng, tier, shard, nshards):
         return with_prelude(self._generate(rng, tier, shard, nshards), rng, size=lambda c: len(c['items']))
@@ -525,6 +525,16 @@ class C09(Check):
             out.observed['lifetimes_checked'] += 1
             if [self._dnorm(v) for v in s.out] != [self._dnorm(v) for v in want]:
                 out.fail('differs-from-definition', op=node, items=case['items'], want=[repr(w)[:80] for w in want[:10]], got=[repr(g)[:80] for g in s.out[:10]])
+            elif len(case['items']) <= 60 and not case.get('prelude'):
+                # three streams with staggered lifetimes through the SAME operator object (progs.staggered_subscriptions), alone and
+                # inside a store section: each owes the definition
+                for how, wrap in (('plain', lambda src: src.pipe(op_)), ('multiplexed', lambda src: src.pipe(rs.state.with_memory_store([op_])))):
+                    t = progs.staggered_subscriptions(wrap, case['items'], out, node[0] + ' (' + how + ')', lambda xs: [self._dnorm(v) for v in xs])
+                    if t is None:
+                        break
+                    if t != [self._dnorm(v) for v in want]:
+                        out.fail('differs-from-definition-with-staggered-streams-through-one-operator', op=node, how=how, items=case['items'])
+                        break
             return out
         s = run_ctx(case['ctx_node'], self._named_builder(node), case['items'], log, prelude=case.get('prelude'))
         lts = self._lifetimes(log, out) if s.err is None else None
